@@ -739,7 +739,7 @@ func init() {
 	register(&Property{
 		ID:    "C06",
 		Level: "other",
-		Rules: []Rule{{"V1", ruleV1}, {"V2", ruleV2}, {"V3b", ruleItemReadResult}, {"V5", ruleV5}, {"E1r", ruleE1r}, {"V8", ruleV8}},
+		Rules: []Rule{{"V1", ruleV1}, {"V2", ruleV2}, {"V3b", ruleItemReadResult}, {"V5", ruleV5}, {"E1r", ruleE1r}, {"V8", ruleV8}, {"Z4", ruleZ4}, {"S1c", ruleS1c}},
 		Explanation: "V1 the choice function each API hands to the recursive visitor is evaluated over the finite sign domain of the comparator result: ascending delivers for compare(target,key) in {-,0} (key >= target) exploring left then right, descending delivers for {+} (key < target) exploring right then left; the comparator is called as compare(target, item.Key); the entry call starts at the pinned root with the caller's target / value mode and depth 0. V2 every path of the recursive visitor is explored with a small typestate: on the delivering arm near subtree → item → far subtree, otherwise far subtree only; a false keep-going or visitor answer leads to `return false` with nothing further visited; no success return skips the far subtree. V3 the delivered item is item(n).read(withValue) with the function's own withValue. V4 depth and parameters are passed through (depth+1 to children). V5 the non-Ex wrappers and the iterators forward target, value mode, item and answer unchanged and in their own direction. V6 the ascending order guard is transparent. With the search-tree order of C13, in-order = key order. NOT decided: the delivered sequence for all contents and cache states (in-visit eviction and re-read) as data.",
 		ControlSrc:   controlC06,
 		ControlEdits: []ControlEdit{{"Collection.VisitItemsAscend", "withValue = !withValue"}, {"ascendChoice", "cmp = -cmp"}},
